@@ -183,8 +183,8 @@ def fanout(S0, S1, who, sm):
     every other connection's outbox is unchanged"""
     def per_conn(cn):
         n = S0.out_len[cn]
-        got = And(S1.out_len[cn] == n + 1,
-                  EX([H.Frame], lambda fr: And(S1.out_buf[cn] == Store(S0.out_buf[cn], n, fr), is_message_frame(fr, sm))))
+        fr = S1.out_buf[cn][n]
+        got = And(S1.out_len[cn] == n + 1, S1.out_buf[cn] == Store(S0.out_buf[cn], n, fr), is_message_frame(fr, sm))
         same = And(S1.out_len[cn] == n, S1.out_buf[cn] == S0.out_buf[cn])
         return If(who(cn), got, same)
     return FA([INT], per_conn, pats=lambda cn: [S1.out_len[cn]])
@@ -381,3 +381,9 @@ def _(c, L):
         e, s_ = E.heap["WebSocketServer." + f], S.heap["WebSocketServer." + f]
         reset = IntVal(0) if f == "_mailbox" else BoolVal(False)
         yield "done_dropped." + f, FA([INT], lambda h: s_[h] == If(L.done(h), reset, e[h]), pats=lambda h: [s_[h]])
+
+
+# ---------------------------------------------------------------- invariant preservation
+from pvc.contract import REGISTRY as _R    # noqa: E402
+I.add_preserves(_R["server.Mailbox.close"])
+I.add_preserves(_R["server.Mailbox.add_message"])
